@@ -125,9 +125,10 @@ func main() {
 	}
 	refs := func(d string) []string {
 		if d == "" {
-			return []string{"", "a", "a/", "a/b", "a/b/", "/"}
+			return []string{"", "a", "a/", "a/b", "a/b/", "/", "a//"}
 		}
-		return []string{"", "a", "a" + d, "a" + d + "b", "a" + d + "b" + d, d}
+		// incl. references ending in two delimiters (an empty hierarchy level is a level)
+		return []string{"", "a", "a" + d, "a" + d + "b", "a" + d + "b" + d, d, "a" + d + d, d + d}
 	}
 	configs := []config{
 		{'/', []string{"a", "b", "/", "."}, []string{"a", "b", "/", ".", "*", "%"}, refs("/"), nameLen, patLen},
@@ -176,7 +177,7 @@ func main() {
 			"example": cas{Name: "a" + d + "b", Delim: d, Reference: "a", Pattern: "%", Got: imapserver.MatchList("a"+d+"b", cf.delim, "a", "%"), Want: compile(cf.delim, "a", "%").MatchString("a" + d + "b")}})
 	}
 	run.AddEvals(evals)
-	run.Rule = "every (name, pattern, reference, delimiter): names over {a,b,/,.} and patterns over {a,b,/,.,*,%} up to the length bound, references {'',a,a<d>,a<d>b,a<d>b<d>,<d>}, delimiters '/', '.', none, and the non-ASCII '→' and '»' (own alphabets incl. 'û' whose last byte equals U+00BB); oracle = anchored regexp compiled from the resolved pattern. non-trivial = distinct (pattern with a wildcard, reference, delimiter) triples that both match and reject some enumerated name"
+	run.Rule = "every (name, pattern, reference, delimiter): names over {a,b,/,.} and patterns over {a,b,/,.,*,%} up to the length bound, references {'',a,a<d>,a<d>b,a<d>b<d>,<d>,a<d><d>,<d><d>}, delimiters '/', '.', none, and the non-ASCII '→' and '»' (own alphabets incl. 'û' whose last byte equals U+00BB); oracle = anchored regexp compiled from the resolved pattern. non-trivial = distinct (pattern with a wildcard, reference, delimiter) triples that both match and reject some enumerated name"
 	run.Exhaustive = true
 	run.Set("name_len", int64(nameLen))
 	run.Set("pattern_len", int64(patLen))
